@@ -25,7 +25,25 @@ pub fn worker_main(args: &[String]) {
 }
 
 /// Outcome per case: the worker's reply, or `abort <signal/code>` / `timeout`.
+/// A `timeout` is only reported after the case, run again ALONE with six times the limit (at least 20 s),
+/// still does not answer: a slow machine (other builds running) must not look like a hang. Only the first
+/// 8 timeouts of a run are confirmed this way; a run with more of them is hanging systematically.
 pub fn run_isolated(prop: &str, cases: &[String], timeout_ms: u64, mem_mb: u64) -> Vec<String> {
+    let mut out = run_isolated_once(prop, cases, timeout_ms, mem_mb);
+    let mut confirmed = 0;
+    for i in 0..out.len() {
+        if out[i] == "timeout" && confirmed < 8 {
+            confirmed += 1;
+            let again = run_isolated_once(prop, &cases[i..i + 1], (timeout_ms * 6).max(20_000), mem_mb);
+            if let Some(r) = again.into_iter().next() { if r != "timeout" { SLOW_CASES.fetch_add(1, std::sync::atomic::Ordering::Relaxed); } out[i] = r; }
+        }
+    }
+    out
+}
+/// cases that exceeded the per-case limit in the batch but answered when run alone
+pub static SLOW_CASES: std::sync::atomic::AtomicU64 = std::sync::atomic::AtomicU64::new(0);
+
+fn run_isolated_once(prop: &str, cases: &[String], timeout_ms: u64, mem_mb: u64) -> Vec<String> {
     let exe = std::env::current_exe().expect("exe");
     let mut out: Vec<String> = Vec::with_capacity(cases.len());
     let mut next = 0usize;
@@ -50,6 +68,7 @@ pub fn run_isolated(prop: &str, cases: &[String], timeout_ms: u64, mem_mb: u64) 
                 dead = true;
             }
             if !dead {
+                let mut disconnected = false;
                 match rx.recv_timeout(Duration::from_millis(timeout_ms)) {
                     Ok(l) => {
                         let (_i, r) = l.split_once(' ').unwrap_or(("", ""));
@@ -59,9 +78,11 @@ pub fn run_isolated(prop: &str, cases: &[String], timeout_ms: u64, mem_mb: u64) 
                         let _ = child.kill(); let _ = child.wait();
                         out.push("timeout".into()); next += 1; dead = true;
                     }
-                    Err(mpsc::RecvTimeoutError::Disconnected) => { dead = true; }
+                    Err(mpsc::RecvTimeoutError::Disconnected) => { dead = true; disconnected = true; }
                 }
-                if dead && out.len() == next {
+                // (a timeout has pushed its own outcome above; only a worker that died by itself is reported here —
+                //  testing `out.len() == next` also held after a timeout and marked the FOLLOWING case `abort signal9` unrun)
+                if disconnected {
                     // disconnected without reply: the worker died on this case
                     let st = child.wait().ok();
                     let code = st.map(|s| {
